@@ -31,7 +31,7 @@ ASSUMPTIONS = ["os-level events issued through Python are all seen by the audit 
                "'complete' = the file decompresses (with its .ch) to / equals the source bytes",
                "a failure is an exception raised while one chunk is being (de)compressed"]
 REQUIRED = {"compress_faults_injected": 20, "decompress_faults_injected": 20, "remove_events_judged": 4, "stale_bin_runs": 9, "twin_sync_selectors": 50, "twin_selectors": 200,
-            "roundtrips": 4, "entry_paths": 8, "twin_inconsistent_metadata": 3}
+            "roundtrips": 4, "entry_paths": 8, "twin_inconsistent_metadata": 3, "explicit_companions": 4}
 CASE_TIMEOUT = 200.0
 
 
@@ -426,6 +426,35 @@ def run_case(case):
                     sr.close()
                 except Exception as e:
                     res.exception(key + ":exception", e, lab)
+        # ---- companions named explicitly (meta_file= / ch_file=) because they live elsewhere under other names
+        w = d / "explicit"
+        b = G.write(rec, w)
+        elsewhere = d / "explicit-companions"
+        elsewhere.mkdir()
+        meta_e = elsewhere / "some-other-name.meta"
+        shutil.move(str(b.with_suffix(".meta")), str(meta_e))
+        for form in ("bin", "cbin"):
+            lab = f"{kind}: companions given explicitly, Reader({form}, meta_file=..." + (", ch_file=...)" if form == "cbin" else ")")
+            try:
+                kw2 = {"meta_file": meta_e}
+                path = b
+                if form == "cbin":
+                    import mtscomp as _mt
+                    _mt.compress(b, out=b.with_suffix(".cbin"), outmeta=elsewhere / "another.ch", sample_rate=rec.fs, n_channels=rec.nc, dtype=np.int16,
+                                 chunk_duration=0.003, check_after_compress=False)
+                    b.unlink()
+                    path = b.with_suffix(".cbin")
+                    kw2["ch_file"] = elsewhere / "another.ch"
+                sr = spikeglx.Reader(path, **kw2)
+                res.count("entry_paths")
+                res.count("explicit_companions")
+                res.check(sr.file_meta_data == meta_e and sr.file_bin == path, "entry:explicit-meta", f"{lab}: resolved meta {sr.file_meta_data} binary {sr.file_bin}")
+                res.check(sr.shape == (ns, rec.nc) and np.allclose(sr[:, :], cal, rtol=2.0 ** -22, atol=0), "entry:explicit-values", f"{lab}: resolves to different data (shape {sr.shape})")
+                a = sr[int(ns // 3):int(ns // 3) + 7, :]
+                res.check(np.allclose(a, cal[int(ns // 3):int(ns // 3) + 7], rtol=2.0 ** -22, atol=0), "entry:explicit-values", f"{lab}: a slice differs")
+                sr.close()
+            except Exception as e:
+                res.exception("entry:explicit-exception", e, lab)
         # ---- companions carrying different UUIDs in their names (as datasets registered on a server do)
         import uuid
         w = d / "uuid"
